@@ -39,10 +39,10 @@ type c16Case struct {
 	NoDatabase bool   `json:"nodatabase"`
 	DecoyFood  bool   `json:"decoyfood"` // a food.yaml exists in the working directory
 	EqualsForm bool   `json:"equalsform"`
-	CfgSymlink bool   `json:"cfgsymlink"` // the configuration file is a symbolic link to the real file
-	CfgPad     int    `json:"cfgpad"`     // bytes of comment lines before the first section of the configuration file
-	NoDBFalse  bool   `json:"nodbfalse"`  // --no-database=false is given: must behave as if the switch were absent
-	Dollar     bool   `json:"dollar"`     // the file names contain $HOME / ${USER}: they are names, not references
+	CfgSymlink bool   `json:"cfgsymlink"`         // the configuration file is a symbolic link to the real file
+	CfgPad     int    `json:"cfgpad"`             // bytes of comment lines before the first section of the configuration file
+	NoDBFalse  bool   `json:"nodbfalse"`          // --no-database=false is given: must behave as if the switch were absent
+	Dollar     bool   `json:"dollar"`             // the file names contain $HOME / ${USER}: they are names, not references
 	NowStyle   int    `json:"nowstyle,omitempty"` // how the Now entry of the configuration file is written: 0 midnight Z, 1 01:30+02:00, 2 22:30-05:00, 3 midnight +00:00
 	CfgStyle   int    `json:"cfgstyle,omitempty"` // layout of the configuration file: 0 plain, 1 lower case with blanks, 2 CRLF, 3 quoted values, 4 comments and indentation
 	DepthMul   int    `json:"depthmul,omitempty"` // >1: the four distinguishable depth values are 1..4 times this factor (depths far above the default)
@@ -674,7 +674,6 @@ func c16EnumSpace() []c16Case {
 	}
 	return out
 }
-
 
 // ---------------------------------------------------------------------------
 // the recipe-book path and the log path may name the same file (each from any source): every command must read that
